@@ -57,8 +57,8 @@ Leaves == LeavesOf(Script)
 CleanLeaves == CleanLeavesOf(Script)
 CbLeaves == CbLeavesOf(Script)          \* leaf senders (they register a stop callback); N/M leaves are awaitables
 Ctxs == {0} \cup {s.a : s \in {x \in StmtsOf(Script) : x.k = "S"}}
-Owner(l) == CHOOSE k \in Frames : \E i \in 1..Len(Body(k)) : \/ Body(k)[i].k \in LeafKinds /\ Body(k)[i].a = l
-                                                               \/ Body(k)[i].k = "Y" /\ Body(k)[i].b = l
+Owner(l) == CHOOSE k \in Frames : \E i \in 1..Len(Body(k)) : (Body(k)[i].k \in LeafKinds /\ Body(k)[i].a = l)
+                                                               \/ (Body(k)[i].k = "Y" /\ Body(k)[i].b = l)
 Sources == 0..K
 Src(k) == k + 1
 Mode(l) == cfg.mode[l]
